@@ -5,11 +5,11 @@ import z3
 from sx import core as S, env as E, pl, plh, families as F, known
 
 PROPERTY = "C05"
-REGIONS = ["double-negation", "atoms-only", "compounds-only", "mixed", "negative-node", "integer-leaf", "explicit-id-kept", "via-Not"]
+REGIONS = ["not-of-atom", "double-negation", "atoms-only", "compounds-only", "mixed", "negative-node", "integer-leaf", "explicit-id-kept", "via-Not"]
 BOUNDS = ("PL family skeletons (<=7 compounds, depth<=3); value/sign of explicitly named AtLeast/AtMost nodes symbolic "
           "(|v|<=2^20); integer-leaf boxes symbolic in [-32768,32767]; leaf values symbolic in-box")
 OUTSIDE = "larger skeletons; symbolic thresholds on generated-id nodes (M6); the open known-finding class (negate on positive mixed node)"
-FAMILY = "curated + seeded PL skeletons x {negate(), Not()} x leaf-name assignments"
+FAMILY = "curated + seeded PL skeletons x {negate(), Not()} x leaf-name assignments; Not(atom) for variable / str / subclass atoms with a symbolic box"
 ASSUMPTIONS = ["M4", "M5 structural", "M6", "evaluate() itself is the subject of C03; here its result on the negation is compared with 1 - reference truth of the original"]
 
 
@@ -37,14 +37,67 @@ def instantiations(tier, seed):
             mv = F.rename(m, {c["id"]: "VAR" + str(c["id"]) for c in pl.compounds(m) if c.get("id")})
             out.append({"model": mv, "via": "negate", "chain": 2})
             out.append({"model": m, "via": "Not", "chain": 2})
+    # Not applied to an atom (documented as the complement of All(atom), i.e. of "atom >= 1"): boolean / str / integer atoms with any box
+    for k, (form, chain) in enumerate([("variable", 1), ("variable", 2), ("str", 1), ("subclass", 1)]):
+        out.append({"part": "atom", "form": form, "chain": chain, "model": F.N("All", F.V("q", "$lo_q", "$hi_q")), "via": "Not"})
     base = F.symbolize(F.AL(2, F.a(), F.b(), F.c(), id="A", sign=1))
     for mu in ("no_complement", "off_by_one"):
         out.append({"kind": "mutant", "mutant": mu, "model": base, "via": "negate"})
     return out
 
 
+def _atom(ns, spec, run):
+    from sx import plspec
+
+    def fn(ctx):
+        if spec["form"] == "str":
+            lo, hi = S.K(0), S.K(1)
+        else:
+            lo, hi = ctx.int("lo_q", plh.LO16, plh.HI16), ctx.int("hi_q", plh.LO16, plh.HI16)
+            ctx.assume(lo.e <= hi.e)
+        x = ctx.int("x_q")
+        ctx.assume(z3.And(x.e >= lo.e, x.e <= hi.e))
+        cls = plspec._item_class(ns.puan) if spec["form"] == "subclass" else ns.puan.variable
+        leaf = "q" if spec["form"] == "str" else cls("q", bounds=(lo, hi))
+        err = val = neg = None
+        try:
+            neg = ns.pg.Not(leaf)
+            if spec["chain"] == 2:
+                neg = ns.pg.Not(neg)
+            val = neg.evaluate({"q": x})
+        except Exception as e:   # noqa
+            err = "%s: %s" % (type(e).__name__, e)
+        return dict(lo=lo, hi=hi, x=x, val=val, err=err, neg=neg)
+
+    def on_path(ctx, d):
+        run.path(ctx)
+        run.region("not-of-atom")
+        run.region("via-Not")
+
+        def conc(m):
+            return {"env": {"lo_q": S.model_int(m, d["lo"]), "hi_q": S.model_int(m, d["hi"])}, "vals": {"q": S.model_int(m, d["x"])}}
+        if d["err"] is not None:
+            run.obligation(ctx, "raises", True, conc, extra=d["err"])
+            return
+        holds = pl._I(d["x"].e >= 1)                # All(atom): atom >= 1
+        want = (1 - holds) if spec["chain"] == 1 else holds
+        if spec["chain"] == 2:
+            run.region("double-negation")
+        if spec["form"] != "str":
+            run.region("integer-leaf")
+        val = d["val"]
+        run.obligation(ctx, "complement", z3.Or(S.term(val.lower) != want, S.term(val.upper) != want), conc)
+        ext = z3.Or(d["lo"].e == plh.LO16, d["hi"].e == plh.HI16, d["lo"].e == 1, d["x"].e == 0) if spec["form"] != "str" else None
+        run.validate(ctx, conc, lambda m: {"neg": [S.model_int(m, val.lower), S.model_int(m, val.upper)]}, extremes=ext)
+        run.sample({"model": "Not(q)", "form": spec["form"], "chain": spec["chain"], "negation": repr(d["neg"])[:200]})
+    st = S.explore(fn, on_path, max_paths=2000, wall=600)
+    return run.result(st)
+
+
 def run_inst(spec, run):
     ns = E.load_repo()
+    if spec.get("part") == "atom":
+        return _atom(ns, spec, run)
     model_spec = spec["model"]
     mu = spec.get("mutant")
     rep = pl.build(ns, model_spec, plh.mid_env(model_spec))
